@@ -11,7 +11,6 @@ package server
 // group (one split x one ending, all request shapes) it evaluates the property itself (L2).
 
 import (
-	"bufio"
 	"bytes"
 	"context"
 	"encoding/json"
@@ -56,6 +55,9 @@ const (
 	vc17TokMsg   = "tokenize failed: runner gone"
 	vc17DetokMsg = "detokenize failed: runner gone"
 	vc17BoomMsg  = "runner failed: boom"
+	// text of the error the handlers send for a run that ends without a done chunk (server.errIncompleteResponse; spelled
+	// out so that the driver still builds on a tree without that repair — the Tie compares the OBSERVED text with the model)
+	vc17IncompleteMsg = "model runner stopped without completing the response"
 )
 
 func (m *vc17Runner) Completion(_ context.Context, r llm.CompletionRequest, fn func(llm.CompletionResponse)) error {
@@ -1809,7 +1811,7 @@ func (h *vc17H) branches(s vc17Shape, g vc17Group, res vc17Res) {
 				switch e.tag {
 				case "e":
 					switch {
-					case e.text == errIncompleteResponse.Error():
+					case e.text == vc17IncompleteMsg:
 						c("native_stream_incomplete_error")
 					case e.text == vc17TokMsg:
 						c("gen_stream_context_tokenize_error")
@@ -2252,11 +2254,6 @@ func TestVerifC17Table(t *testing.T) {
 	if err := os.WriteFile(zzverif.OutDir()+"/table.txt", []byte(b.String()), 0o644); err != nil {
 		t.Fatal(err)
 	}
-	// the two fixed error texts the model contains: the handlers' errIncompleteResponse and the scanner's ErrTooLong
-	consts := fmt.Sprintf("incomplete %s\ntoolong %s\n", zzverif.Hex([]byte(errIncompleteResponse.Error())), zzverif.Hex([]byte(bufio.ErrTooLong.Error())))
-	if err := os.WriteFile(zzverif.OutDir()+"/consts.txt", []byte(consts), 0o644); err != nil {
-		t.Fatal(err)
-	}
 }
 
 // TestVerifC17Variant: Tie 1 — which of the repaired behaviours the tree under test shows, probed on the real
@@ -2290,10 +2287,16 @@ func TestVerifC17Variant(t *testing.T) {
 	// F17d: a run that ends without a done chunk is reported
 	res = run(vc17Group{pieces: []string{"Hel"}, end: "silent", k: 1}, vc17Shape{ep: "gen", stream: 1, model: vc17Plain})
 	put("incomplete", len(vc17Aggregate(res.evs).errs) == 1)
+	incompleteText := strings.Join(vc17Aggregate(res.evs).errs, "|") // what the tree says for such a run ("" = nothing)
 	// F17e: api.Client returns the scanner's error for a line it cannot hold
 	long := `"` + strings.Repeat("0123456789abcdef", (h.climit+1000)/16+1)[:h.climit+1000] + `"`
 	res = run(vc17Group{pieces: []string{long}, end: "ok", pec: 1, ec: 1}, vc17Shape{ep: "cgen", stream: 0, model: vc17Plain})
 	put("clientFixed", res.cerr != "")
+	// the two fixed error texts of the model, as OBSERVED: the handlers' incomplete-run error, the client's refusal of a long line
+	consts := fmt.Sprintf("incomplete %s\ntoolong %s\n", zzverif.Hex([]byte(incompleteText)), zzverif.Hex([]byte(res.cerr)))
+	if err := os.WriteFile(zzverif.OutDir()+"/consts.txt", []byte(consts), 0o644); err != nil {
+		t.Fatal(err)
+	}
 	// F17f: a tool call delivered by the done message itself ends the OpenAI stream with tool_calls
 	res = run(vc17Group{pieces: []string{a}, end: "ok", doneB: true, pec: 1, ec: 1}, vc17Shape{ep: "oachat", stream: 1, tools: true, model: vc17Tools})
 	lastFinish := ""
